@@ -17,7 +17,7 @@ from ..runner import Result
 
 ID = 'C07'
 LEVEL = 'exploration'
-BUDGET = {'quick': 700, 'thorough': 4000}
+BUDGET = {'quick': 2000, 'thorough': 4000}
 RULE = ("Case = 1-5 TimeDate / TimeSpan blocks in local (UTC+offset) and UTC mode with generated times "
         "(0-3 ranges: wrapping, equal endpoints, microsecond endpoints, on and off the hour), dates (incl. Feb 29 "
         "and Dec 31 - Jan 1), weekdays (0-7) and spans around the start instant; start instant around Dec 31, "
@@ -113,6 +113,7 @@ def tod_strategy(around):
         st.tuples(st.integers(0, 23), st.integers(0, 59)).map(lambda hm: (hm[0] * 3600 + hm[1] * 60) * 10 ** 6),
         st.integers(0, DAY - 1),
         st.just(around), st.just(around),
+        st.just(0),         # midnight as an end point (every TimeDate is also registered for midnight)
         st.sampled_from([(23 * 3600 + 30 * 60) * 10 ** 6, (23 * 3600 + 59 * 60 + 59) * 10 ** 6 + 999_000,
                          (23 * 3600 + 5 * 60) * 10 ** 6, 30 * 60 * 10 ** 6]),
         st.sampled_from([1, -1, 500_000, -2_000_000]).map(lambda d: (around + d) % DAY),
@@ -122,17 +123,20 @@ def tod_strategy(around):
 @st.composite
 def td_cfg(draw, around):
     cfg = {'kind': 'td', 'times': None, 'dates': None, 'weekdays': None}
-    if draw(st.integers(0, 9)) < 8:
+    with_dates = draw(st.integers(0, 9)) < 3
+    with_weekdays = draw(st.integers(0, 9)) < 3
+    # a block that depends on the calendar only changes at midnight and nowhere else
+    if draw(st.integers(0, 9)) < (5 if with_dates or with_weekdays else 8):
         cfg['times'] = [[draw(tod_strategy(around)), draw(tod_strategy(around))]
                         for _ in range(draw(st.integers(0, 3)))]
-    if draw(st.integers(0, 9)) < 3:
+    if with_dates:
         md = st.tuples(st.integers(1, 12), st.integers(1, 28)).map(list)
         cfg['dates'] = [[draw(md), draw(md)] for _ in range(draw(st.integers(0, 2)))]
         extra = draw(st.sampled_from([None, [[12, 31], [1, 1]], [[2, 29], [2, 29]], [[2, 28], [3, 1]],
                                       [[12, 31], [12, 31]]]))
         if extra:
             cfg['dates'].append(extra)
-    if draw(st.integers(0, 9)) < 3:
+    if with_weekdays:
         cfg['weekdays'] = draw(st.lists(st.integers(0, 7), unique=True, max_size=5))
     return cfg
 
@@ -174,9 +178,30 @@ def cases(draw):
             cfg = draw(td_cfg(bnd if not utc else (bnd - offset * 10 ** 6) % DAY))
         cfg['utc'] = utc
         blocks.append(cfg)
+    link = None
+    if nb >= 2 and draw(st.integers(0, 2)) == 0:
+        # an output change of one block reconfigures another block of the scheduler (synchronously, i.e.
+        # also from inside the scheduler's wake-up)
+        src = draw(st.integers(0, nb - 1))
+        # preferably a block served by the same scheduler (local / UTC)
+        same = [j for j in range(nb) if j != src and blocks[j]['utc'] == blocks[src]['utc']]
+        others = [j for j in range(nb) if j != src]
+        dst = draw(st.sampled_from(same)) if same and draw(st.integers(0, 4)) else draw(st.sampled_from(others))
+        if blocks[dst]['kind'] == 'td':
+            new = draw(td_cfg(draw(st.one_of(st.just(bnd), st.integers(0, DAY - 1)))))
+        else:
+            new = {'kind': 'ts', 'spans': None, 'rel': [
+                [draw(st.sampled_from([-7200, -1, 0, 1, 600])), draw(st.sampled_from([500, 1000, 3_000_000])),
+                 draw(st.sampled_from([3600, 86400, 7200 + 1, 3]))]
+                for _ in range(draw(st.integers(0, 2)))]}
+        link = {'src': src, 'dst': dst, 'cfg': new}
     steps = []
-    for _ in range(draw(st.integers(3, 30))):
+    # clock jumps blind the oracle for an hour each: half of the cases go without
+    jumpy = draw(st.booleans())
+    for _ in range(draw(st.one_of(st.integers(2, 10), st.integers(2, 10), st.integers(10, 30)))):
         r = draw(st.integers(0, 19))
+        if not jumpy and 3 <= r <= 5:
+            r = 19
         if r <= 2:
             i = draw(st.integers(0, nb - 1))
             newb = draw(st.one_of(st.just(bnd), st.integers(0, DAY - 1)))
@@ -193,6 +218,13 @@ def cases(draw):
                               st.sampled_from([0, 1, 100, 1000, 3000, -100, -2000, 10 ** 6, 10 ** 7,
                                                25 * 10 ** 6])).map(list))),
                           'cost_ms': draw(st.sampled_from([0, 0, 1, 5, 30]))})
+            if draw(st.booleans()):
+                # then watch a boundary of the new configuration (0 = midnight)
+                steps.append({'op': 'to_boundary', 'blk': i, 'which': draw(st.sampled_from([0, 0, 1, 2, 3, 4])),
+                              'after_ms': draw(st.sampled_from([70, 500, 61]))})
+                # ... and the same time of day on the following days (calendar conditions)
+                for _ in range(draw(st.integers(0, 3))):
+                    steps.append({'op': 'sleep', 'seconds': 86400.5})
         elif r <= 3:
             steps.append({'op': 'jump', 'seconds': draw(st.sampled_from([30, 600, 3599, 3600, 1800]))})
         elif r <= 4:
@@ -214,7 +246,7 @@ def cases(draw):
             'read_latency_us': draw(st.sampled_from([1, 3, 20, 50])),
             'wake_latency_us': draw(st.sampled_from([0, 0, 500, 2000])),
             'init_cost_ms': draw(st.sampled_from([0, 0, 1, 3, 20, 50])),
-            'blocks': blocks, 'steps': steps}
+            'blocks': blocks, 'steps': steps, 'link': link}
 
 
 def strategy(tier):
@@ -286,11 +318,15 @@ def execute(case):
         harness.reset()
         circuit = edzed.get_circuit()
         real = []
+        link = case.get('link')
         for i, cfg in enumerate(cfgs):
+            kw = {}
+            if link and link['src'] == i:
+                kw['on_output'] = edzed.Event('lnk', 'fire', efilter=edzed.not_from_undef)
             if cfg['kind'] == 'td':
-                real.append(edzed.TimeDate(f't{i}', utc=cfg['utc'], **kwargs_of(cfg)))
+                real.append(edzed.TimeDate(f't{i}', utc=cfg['utc'], **kwargs_of(cfg), **kw))
             else:
-                real.append(edzed.TimeSpan(f't{i}', utc=cfg['utc'], **kwargs_of(cfg)))
+                real.append(edzed.TimeSpan(f't{i}', utc=cfg['utc'], **kwargs_of(cfg), **kw))
         if case['init_cost_ms']:
             Slow('slow', x_cost=case['init_cost_ms'] / 1000, x_clock=clock)
         jump_until = [None]
@@ -317,6 +353,28 @@ def execute(case):
                     obs['straddled'] = True
                 last_expected[i] = exp
                 obs['samples'].append((tag, i, us, got, exp))
+
+        def new_config(i, new):
+            """-> keyword arguments of the reconfig event; the oracle follows the new configuration"""
+            new = dict(new)
+            new['utc'] = cfgs[i]['utc']
+            if new['kind'] == 'ts' and new.get('spans') is None:
+                ref = now_us(new)
+                new['spans'] = [[ref + a * 10 ** 6 + u, ref + a * 10 ** 6 + u + d * 10 ** 6]
+                                for a, u, d in new['rel']]
+            cfgs[i] = new
+            last_expected[i] = None
+            return kwargs_of(new)
+
+        if link:
+            class Link(edzed.SBlock):
+                def init_regular(self):
+                    self.set_output(0)
+
+                def _event_fire(self, **_data):
+                    obs['link_fired'] = obs.get('link_fired', 0) + 1
+                    edzed.Event(real[link['dst']], 'reconfig').send(self, **new_config(link['dst'], link['cfg']))
+            Link('lnk')
 
         sim = harness.Running()
         await sim.__aenter__()
@@ -371,15 +429,7 @@ def execute(case):
                         await __import__('asyncio').sleep(delta / 1e6)
                     if abs(step['place'][2]) <= 5000:
                         obs['near_reconfig'] = True
-                if new['kind'] == 'ts' and new.get('spans') is None:
-                    ref = now_us(new)
-                    new['spans'] = [[ref + a * 10 ** 6 + u, ref + a * 10 ** 6 + u + d * 10 ** 6]
-                                    for a, u, d in new['rel']]
-                cfgs[i] = new
-                for j in range(len(last_expected)):
-                    if j == i:
-                        last_expected[j] = None
-                edzed.ExtEvent(real[i], 'reconfig').send(**kwargs_of(new))
+                edzed.ExtEvent(real[i], 'reconfig').send(**new_config(i, new))
                 if step['cost_ms']:
                     clock.advance(step['cost_ms'] / 1000)
                 await __import__('asyncio').sleep(0.2)
@@ -410,6 +460,8 @@ def execute(case):
         res.classes.append('reconfig within 5 ms of a boundary')
     if obs.get('jumped'):
         res.classes.append('clock jump')
+    if obs.get('link_fired'):
+        res.classes.append('block reconfigured by the output event of another block')
     if obs.get('straddled'):
         res.classes.append('samples straddle a boundary')
     if any(b['kind'] == 'ts' for b in case['blocks']):
